@@ -245,9 +245,6 @@ package types
 
 // Sets and records: a true answer implies the same dynamic type, the same
 // size, and that every member / entry of the receiver has an equal counterpart.
-//@ func (Set) Contains
-//@   pure
-//@   trusted
 //@ func (Record) Equal
 //@   props C11
 //@   results eq
@@ -315,13 +312,51 @@ package types
 //@   pure
 //@   results n
 //@   ensures n == len(s.s)
-// NewSet, Set.Contains: membership up to Equal (the open-addressing core is
-// covered separately, see DESIGN.md C11).
-//@ func NewSet
+// ------------------------------------------ the set representation (C11)
+// A Set is an open-addressing hash table kept in a Go map: a value lives in
+// the first free slot at or after its hash (slot numbers wrap at 2^64).
+// Representation invariant setInv: every slot between a stored value's hash
+// and its slot (cyclically) is occupied by a value not Equal to it. Under it
+// Contains(x) is exactly "some stored value is Equal to x", and NewSet builds
+// the set of its arguments up to Equal, whatever their order and repetitions.
+// Equal is assumed here to be an equivalence that agrees with hash (lemmas
+// eq_*_scalar prove this for the scalar types; for sets and records it holds
+// by induction on nesting depth, outside the solver).
+//@ spec func hashOf(v Value) uint64 = v.hash#0()
+//@ spec func dist64(a uint64, b uint64) int = mod(b - a, 18446744073709551616)
+//@ spec func chainOcc(m map[uint64]Value, x Value, h uint64) bool = forall k uint64 :: { has(m, k) } (dist64(hashOf(x), k) < dist64(hashOf(x), h)) ==> (has(m, k) && !valEq(x, m[k]))
+//@ spec func setInv(m map[uint64]Value) bool = forall h uint64 :: { has(m, h) } has(m, h) ==> chainOcc(m, m[h], h)
+//@ spec func nodup(m map[uint64]Value) bool = forall h1 uint64, h2 uint64 :: { has(m, h1), has(m, h2) } (has(m, h1) && has(m, h2) && valEq(m[h1], m[h2])) ==> h1 == h2
+//@ spec func member(m map[uint64]Value, x Value) bool = exists h uint64 :: has(m, h) && valEq(x, m[h])
+//@ axiom eq_hash: forall a Value, b Value :: { valEq(a, b) } valEq(a, b) ==> hashOf(a) == hashOf(b)
+//@ axiom eq_sym: forall a Value, b Value :: { valEq(a, b) } valEq(a, b) ==> valEq(b, a)
+//@ axiom eq_trans: forall a Value, b Value, c Value :: { valEq(a, b), valEq(b, c) } (valEq(a, b) && valEq(b, c)) ==> valEq(a, c)
+// Every Set value satisfies the invariant: the zero Set trivially, and NewSet -
+// the only place in the repository that builds a non-zero Set - by proof.
+//@ valinv Set setInv(self.s) && nodup(self.s)
+//@ func (Set) Contains
+//@   props C11
 //@   pure
-//@   trusted
+//@   results r
+//@   ensures r == member(s.s, v)
+//@   loop 1
+//@     invariant forall k uint64 :: { has(s.s, k) } (dist64(hashOf(v), k) < dist64(hashOf(v), hash)) ==> (has(s.s, k) && !valEq(v, s.s[k]))
+//@ func NewSet
+//@   props C11
+//@   pure
 //@   results s
-//@   ensures forall x Value :: s.Contains#0(x) == (exists i int :: 0 <= i && i < len(v) && x.Equal#0(v[i]))
+//@   ensures inv: setInv(s.s)
+//@   ensures distinct: nodup(s.s)
+//@   ensures members: forall x Value :: { member(s.s, x) } member(s.s, x) == (exists i int :: 0 <= i && i < len(v) && valEq(x, v[i]))
+//@   loop 1
+//@     invariant (isnil(set) ==> len(v) == 0) && setInv(set) && nodup(set)
+//@     invariant forall x Value :: { member(set, x) } member(set, x) == (exists j int :: 0 <= j && j < $i && valEq(x, v[j]))
+//@   loop 1.1
+//@     invariant !isnil(set) && setInv(set) && nodup(set)
+//@     invariant forall x Value :: { member(set, x) } member(set, x) == (exists j int :: 0 <= j && j < $i && valEq(x, v[j]))
+//@     invariant forall k uint64 :: { has(set, k) } (dist64(hashOf(vv), k) < dist64(hashOf(vv), hash)) ==> (has(set, k) && !valEq(vv, set[k]))
+//@   ghost before "set[hash] = vv" M0: forall x Value :: M0[x] == member(set, x)
+//@   assert after "set[hash] = vv" added: forall x Value :: { member(set, x) } member(set, x) == (M0[x] || valEq(x, vv))
 //@ func (IPAddr) Contains
 //@   pure
 //@   trusted
